@@ -31,6 +31,9 @@ pub struct Shape {
     /// with `split`: the server handler first reads one piece of the body on the whole stream and splits then
     /// (a split in the middle of a DATA frame), instead of splitting before the first read
     pub late: bool,
+    /// the server handles the request INSIDE its accept loop (the sequential loop of the examples): accept() is not
+    /// polled again before the response is finished, so nothing drives the connection meanwhile
+    pub inline: bool,
 }
 
 pub const METHODS: [(&str, bool); 5] = [("GET", false), ("POST", false), ("OPTIONS", false), ("CONNECT", false), ("CONNECT", true)];
@@ -265,7 +268,8 @@ pub fn execute_cfg(shape: &Shape, seed: u64, mut cfg: NetCfg) -> Outcome {
                     Ok(Some(resolver)) => {
                         sdrv2.borrow_mut().push("req".into());
                         let (saw, ssend, shape3, sp2) = (saw.clone(), ssend.clone(), shape2.clone(), sp.clone());
-                        sp.spawn("handler", async move {
+                        let inline = shape2.inline;
+                        let handler = async move {
                             let (req, mut stream) = match resolver.resolve_request().await {
                                 Ok(x) => x,
                                 Err(e) => {
@@ -346,7 +350,12 @@ pub fn execute_cfg(shape: &Shape, seed: u64, mut cfg: NetCfg) -> Outcome {
                                     Err(e) => stream_class(&e),
                                 };
                             }
-                        });
+                        };
+                        if inline {
+                            handler.await;
+                        } else {
+                            sp.spawn("handler", handler);
+                        }
                     }
                     Ok(None) => {
                         sdrv2.borrow_mut().push("none".into());
@@ -594,12 +603,12 @@ pub fn judge(shape: &Shape, o: &Outcome) -> Vec<(String, String)> {
 }
 
 fn shape_json(s: &Shape, choices: &[u32], seed: u64) -> Value {
-    json!({"shape":[s.method,s.target,s.req_headers,s.req_body,s.req_trailers,s.status,s.resp_headers,s.resp_body,s.resp_trailers,s.split as usize,s.late as usize],"choices":choices,"seed":seed})
+    json!({"shape":[s.method,s.target,s.req_headers,s.req_body,s.req_trailers,s.status,s.resp_headers,s.resp_body,s.resp_trailers,s.split as usize,s.late as usize,s.inline as usize],"choices":choices,"seed":seed})
 }
 
 fn shape_from(v: &Value) -> Shape {
     let a: Vec<usize> = v["shape"].as_array().unwrap().iter().map(|x| x.as_u64().unwrap() as usize).collect();
-    Shape { method: a[0], target: a[1], req_headers: a[2], req_body: a[3], req_trailers: a[4], status: a[5], resp_headers: a[6], resp_body: a[7], resp_trailers: a[8], split: a[9] != 0, late: a.get(10).copied().unwrap_or(0) != 0 }
+    Shape { method: a[0], target: a[1], req_headers: a[2], req_body: a[3], req_trailers: a[4], status: a[5], resp_headers: a[6], resp_body: a[7], resp_trailers: a[8], split: a[9] != 0, late: a.get(10).copied().unwrap_or(0) != 0, inline: a.get(11).copied().unwrap_or(0) != 0 }
 }
 
 fn valid_combo(method: usize, target: usize) -> bool {
@@ -632,7 +641,7 @@ pub fn shapes(thorough: bool) -> Vec<Shape> {
                             let pb = (rb * 2 + rt) % nb;
                             let pt = (rt + rh) % nt;
                             for (split, late) in [(false, false), (true, false), (true, true)] {
-                                out.push(Shape { method, target, req_headers: rh, req_body: rb, req_trailers: rt, status: st, resp_headers: ph, resp_body: pb, resp_trailers: pt, split, late });
+                                out.push(Shape { method, target, req_headers: rh, req_body: rb, req_trailers: rt, status: st, resp_headers: ph, resp_body: pb, resp_trailers: pt, split, late, inline: false });
                             }
                         }
                     }
@@ -660,6 +669,7 @@ pub fn shapes(thorough: bool) -> Vec<Shape> {
                         resp_trailers: (i / 2 + k) % nt,
                         split: (i + k) % 2 == 0,
                         late: (i + k) % 4 == 0,
+                        inline: false,
                     });
                 }
             }
@@ -675,7 +685,7 @@ pub fn run(args: &Args) -> i32 {
     rep.exhaustive = true;
     let shapes = shapes(thorough);
     rep.rule = format!(
-        "{} message shapes from the product of 5 method kinds (GET, POST, OPTIONS, CONNECT, extended CONNECT) x 7 targets (absolute https/http with and without path and query, root path with a query, empty path with a query, authority-form, path + Host header) x 7 header multisets (static-table hit, name-only hit, literal, a name three times interleaved with another, 300-byte value, bytes 0x80-0xff) x 9 body piece lists (0..65536 bytes, pieces of 0,1,2,3,63,64,65,16383,16384 bytes) x 3 trailer options, independently for request and response, request stream whole, split into halves on separate tasks before the first read, or split after the first body read (in the middle of a DATA frame when the transport cut it). Each shape: every execution with <= {bound} deviations, a deviation being a chunk cut (dense for short reads, at write-chunk boundaries +-1 otherwise) or delayed delivery on the request stream in either direction, a partial or pending write acceptance, an application pause between two receive calls, or a scheduling choice other than the FIFO default among client task, client driver, server task, handlers and split halves; plus every shape once under one-byte-per-read and once under one-byte-per-write. Every body piece is handed over as a two-slice Buf (Chain). Every other shape sends its request through a clone of the SendRequest handle. Body bytes are position-coded. Oracle: message in = message out. states = distinct (transport cursors, observation progress) fingerprints; non-trivial = executions with at least one deviation.",
+        "{} message shapes from the product of 5 method kinds (GET, POST, OPTIONS, CONNECT, extended CONNECT) x 7 targets (absolute https/http with and without path and query, root path with a query, empty path with a query, authority-form, path + Host header) x 7 header multisets (static-table hit, name-only hit, literal, a name three times interleaved with another, 300-byte value, bytes 0x80-0xff) x 9 body piece lists (0..65536 bytes, pieces of 0,1,2,3,63,64,65,16383,16384 bytes) x 3 trailer options, independently for request and response, request stream whole, split into halves on separate tasks before the first read, or split after the first body read (in the middle of a DATA frame when the transport cut it). Each shape: every execution with <= {bound} deviations, a deviation being a chunk cut (dense for short reads, at write-chunk boundaries +-1 otherwise) or delayed delivery on the request stream in either direction, a partial or pending write acceptance, an application pause between two receive calls, or a scheduling choice other than the FIFO default among client task, client driver, server task, handlers and split halves; plus every shape once under one-byte-per-read and once under one-byte-per-write. Every shape whose request stream is not split is run once more with the server handling the request inside its accept loop (accept() not polled until the response is finished): default delivery, one byte per read, one byte per write, and every execution with at most one deviation. Every body piece is handed over as a two-slice Buf (Chain). Every other shape sends its request through a clone of the SendRequest handle. Body bytes are position-coded. Oracle: message in = message out. states = distinct (transport cursors, observation progress) fingerprints; non-trivial = executions with at least one deviation.",
         shapes.len()
     );
     rep.assumptions = vec![
@@ -690,6 +700,9 @@ pub fn run(args: &Args) -> i32 {
         Explore(Shape),
         PerByteRead(Shape),
         PerByteWrite(Shape),
+        /// the same shape with the request handled inside the accept loop: default delivery, one byte per read, one
+        /// byte per write, and every execution with at most one deviation
+        Inline(Shape),
     }
     // split the exploration of each shape by its first-level deviations so that work is even
     let mut jobs: Vec<Job> = Vec::new();
@@ -699,6 +712,9 @@ pub fn run(args: &Args) -> i32 {
         if total <= 40_000 {
             jobs.push(Job::PerByteRead(s.clone()));
             jobs.push(Job::PerByteWrite(s.clone()));
+        }
+        if !s.split && (thorough || total <= 40_000) {
+            jobs.push(Job::Inline(Shape { inline: true, ..s.clone() }));
         }
     }
     let accs = explore::par::run(&jobs, Acc::new, |_, job, acc| match job {
@@ -738,6 +754,42 @@ pub fn run(args: &Args) -> i32 {
             for k in 0..nontrivial.min(1_000_000) {
                 acc.nontrivial.insert(h.finish().wrapping_add(k));
             }
+            viol.drain_into(acc, |choices| shape_json(shape, choices, seed));
+        }
+        Job::Inline(shape) => {
+            for (mode, read) in [("inline:one-byte-reads", true), ("inline:one-byte-writes", false)] {
+                let o = execute_mode(shape, seed, read);
+                acc.evaluations += 1;
+                acc.dfs.executions += 1;
+                acc.states.extend(o.fps.iter().copied());
+                for (sig, msg) in judge(shape, &o) {
+                    acc.violation(format!("{sig}:{mode}"), msg, (1, 0), || {
+                        let mut j = shape_json(shape, &[], seed);
+                        j["mode"] = json!(if read { "read1" } else { "write1" });
+                        j
+                    });
+                }
+            }
+            let caps = Caps { deadline: Some(deadline), max_executions: 60_000, ..Caps::default() };
+            let mut viol = explore::report::ViolSet::new();
+            let mut states: Vec<u64> = Vec::new();
+            let st = dfs::explore(
+                1,
+                &caps,
+                || execute(shape, seed, true),
+                |e, o| {
+                    states.extend(o.fps.iter().copied());
+                    for (sig, msg) in judge(shape, &o) {
+                        viol.add(format!("{sig}:inline"), msg, (e.cost, e.choices.len()), &e.choices);
+                    }
+                },
+            );
+            if st.capped {
+                acc.capped_cases += 1;
+            }
+            acc.dfs.merge(&st);
+            acc.evaluations += st.executions;
+            acc.states.extend(states);
             viol.drain_into(acc, |choices| shape_json(shape, choices, seed));
         }
         Job::PerByteRead(shape) | Job::PerByteWrite(shape) => {
